@@ -35,6 +35,9 @@ func checkC20(r *Report, p *Program) {
 	r12_10(r, p)
 	// "… and does not take the process down": what a lookup/hook call may answer with nil is tested before use (shared with C13)
 	lookupResultsChecked(r, p, "R20.8")
+	optionalFieldsChecked(r, p, "R20.9", 10)
+	// the reconcilers' error checks mean what they say (a start that is skipped on success, or goes on after a failure)
+	errorChecksMeanWhatTheySay(r, p, "R20.10")
 }
 
 func r20_1(r *Report, p *Program) {
